@@ -30,7 +30,7 @@ theorem item_step_shape {d m : Xml} {k : Kind} (h : DomOrder ⟨d, m, k⟩ = tru
       rcOf (addK k d m).ro = some (rc.withKids (rc.kids.set j (s.withKids items'))) ∧
       keysOf "item" items' = specIds k "item" (namedOf k base) (keysOf "item" s.kids) ∧
       keyOf "story" (s.withKids items') = keyOf "story" s := by
-  obtain ⟨rc, base, ids, hrc, hc, htim, hsh, hb, hci, hsome, hnd, hres⟩ := DomOrder_unpack h
+  obtain ⟨rc, base, ids, hrc, hc, htim, hsh, hb, hci, hnd, hres⟩ := DomOrder_unpack h
   have hns : k.isStoryLevel = false := by cases k <;> first | rfl | exact absurd hs (by decide)
   have hed : k.editsRc = true := by cases k <;> first | rfl | exact absurd hs (by decide)
   unfold containerIds at hci
@@ -52,7 +52,7 @@ theorem item_step_shape {d m : Xml} {k : Kind} (h : DomOrder ⟨d, m, k⟩ = tru
         obtain ⟨_, rfl⟩ := List.getElem?_eq_some_iff.mp hsj
         simp only [isChild, Bool.and_eq_true] at hp
         simpa using hp.1
-      have g : Good "item" s.kids := ⟨hnd, hsome⟩
+      have g : Good "item" s.kids := ⟨hnd⟩
       obtain ⟨e1, e2, e3⟩ := item_core k base s.kids g hs
         (by intro e; subst e; exact shaped_movemultiple hsh hb) hres
       refine ⟨rc, base, j, s, (itemFn k base s.kids).kids, hrc, hb, ha, hsj, ?_, ?_, e2,
